@@ -49,7 +49,8 @@ ASSUMPTIONS = [
     "the children only)",
     "values handed to gym / dm_env conversions are the canonical form (NumPy view of the JAX array)",
     "gym.spaces.Discrete cannot carry a dtype: its samples are checked against a DiscreteArray modulo the "
-    "integer dtype (range and shape only) unless the declared dtype is int32",
+    "integer dtype (range and shape only) unless the declared dtype is int32; the same holds for a "
+    "MultiDiscreteArray one of whose num_values equals iinfo(dtype).max + 1 (gym stores nvec in the space's dtype)",
     "a gym sample that lies outside its own gym space (gymnasium's integer Box sampler clips to dtype "
     "min+2 / max-2) is not held against the conversion",
     "child names of nested specs avoid attribute names of Spec itself (name, validate, replace, ...)",
@@ -1170,8 +1171,10 @@ def check_samples(E, s, d, gym_space, seed, n=3, tag=""):
         E.ev("sample")
         v = describe_value(x, d)
         relaxed = d["k"] == "discrete" and d["dtype"] != "int32"
+        if d["k"] == "multi" and d["dtype"] != "int32" and max(d["nv"]["flat"] + [1]) > IRANGE[d["dtype"]][1]:
+            relaxed = True  # nvec itself does not fit the dtype, gym cannot carry it either
         if relaxed:  # gym.spaces.Discrete has no dtype to carry (see ASSUMPTIONS)
-            E.counts["guard_discrete_sample_dtype"] += 1
+            E.counts["guard_%s_sample_dtype" % d["k"]] += 1
             v = dict(v, dtype=d["dtype"])
         ok, why = member(d, v)
         if not ok:
